@@ -14,6 +14,7 @@ package verifcheck
 import (
 	"fmt"
 	"os"
+	"strings"
 	"path/filepath"
 	"sync/atomic"
 	"testing"
@@ -1016,6 +1017,278 @@ func TestVerif_C14_failedadmin(t *testing.T) {
 		for _, l := range labels {
 			if l == "admin operation failed as injected" {
 				nt = true
+			}
+		}
+		col.Case(c, nt, append([]string{c.Admin, c.Op}, labels...)...)
+		if msg != "" {
+			if len(msg) >= 8 && msg[:8] == "harness:" {
+				col.Note(msg)
+				t.Errorf("%s", msg)
+				continue
+			}
+			col.FailDistinct(c, "%s", msg)
+		}
+	}
+	col.SetExhaustive(true)
+	if col.Failed() {
+		t.Fail()
+	}
+}
+
+// ---------------------------------------------------------------------------------------------
+// part "closeduring": the engine is closed while a snapshot / compaction (started by another
+// caller) is parked at one of its phase boundaries, after a client write was acknowledged inside
+// that window; the admin operation is released afterwards and runs into the closed engine.
+// Close persists every write acknowledged before it: after Open the state equals the state read
+// before Close was invoked.
+
+type c14CloseCell struct {
+	Admin string `json:"admin"`
+	PW    int    `json:"pw"` // admin position at which the client write is issued and acknowledged
+	PA    int    `json:"pa"` // admin position (>= PW) at which Close is invoked
+	Op    string `json:"op"`
+}
+
+func c14CloseAllCells() []c14CloseCell {
+	var out []c14CloseCell
+	for _, a := range []string{"snapshot", "rewrite"} {
+		for pa := 1; pa <= len(c14OrderPoints[a]); pa++ {
+			for pw := 1; pw <= pa; pw++ {
+				for _, op := range c14OverlapOps {
+					out = append(out, c14CloseCell{Admin: a, PW: pw, PA: pa, Op: op})
+				}
+			}
+		}
+	}
+	return out
+}
+
+func c14CloseRun(c c14CloseCell) (msg string, labels []string) {
+	dir, cleanup := verifkit.TempDir("c14c")
+	defer cleanup()
+	data := filepath.Join(dir, "data")
+	e, err := engine.Open(engineOpts(data))
+	if err != nil {
+		return "harness: " + err.Error(), nil
+	}
+	var released atomic.Bool
+	adminGo := make(chan struct{}, 32)
+	closeDone := make(chan error, 1)
+	closeStarted := false
+	defer func() {
+		released.Store(true)
+		for i := 0; i < 16; i++ {
+			select {
+			case adminGo <- struct{}{}:
+			default:
+			}
+		}
+		SetExtraHook(nil)
+		if !closeStarted {
+			e.Close()
+		}
+	}()
+	for _, err := range []error{
+		e.VCreate("i0", distance.Euclidean, 16, 200, distance.Float32, "", nil, nil, nil),
+		e.VAdd("i0", "a", []float32{1, 0}, map[string]any{"s": "x"}),
+		e.VAdd("i0", "b", []float32{0, 1}, nil),
+		e.VAdd("i0", "c", []float32{1, 1}, map[string]any{"n": 1.0}),
+		e.VLink("i0", "a", "b", "r", "", 1, nil),
+		e.KVSet("k0", []byte("v0")),
+		e.AOF.Flush(),
+	} {
+		if err != nil {
+			return "harness: fixture: " + err.Error(), nil
+		}
+	}
+	points := c14OrderPoints[c.Admin]
+	adminAt := make(chan int, 32)
+	SetExtraHook(func(name string) {
+		if released.Load() {
+			return
+		}
+		for i, p := range points {
+			if p == name {
+				adminAt <- i + 1
+				<-adminGo
+				return
+			}
+		}
+	})
+	adminDone := make(chan error, 1)
+	go func() {
+		defer func() {
+			if p := recover(); p != nil {
+				adminDone <- fmt.Errorf("PANIC in %s: %v", c.Admin, p)
+			}
+		}()
+		if c.Admin == "snapshot" {
+			adminDone <- e.SaveSnapshot()
+		} else {
+			adminDone <- e.RewriteAOF()
+		}
+	}()
+	if c.PW < 1 {
+		c.PW = c.PA
+	}
+	advance := func(from, to int) string {
+		for pos := from; pos <= to; pos++ {
+			if pos >= 2 {
+				adminGo <- struct{}{}
+			}
+			select {
+			case got := <-adminAt:
+				if got != pos {
+					return fmt.Sprintf("harness: %s reached point %d, expected %d", c.Admin, got, pos)
+				}
+			case err := <-adminDone:
+				return fmt.Sprintf("harness: %s finished before point %d: %v", c.Admin, pos, err)
+			case <-time.After(c14Hang):
+				return fmt.Sprintf("%s did not reach %s within 2 min", c.Admin, points[pos-1])
+			}
+		}
+		return ""
+	}
+	if m := advance(1, c.PW); m != "" {
+		return m, labels
+	}
+	// the client write, acknowledged while the admin operation is parked
+	wDone := make(chan error, 1)
+	go func() {
+		switch c.Op {
+		case "kvset":
+			wDone <- e.KVSet("k1", []byte("v1"))
+		case "vadd":
+			wDone <- e.VAdd("i0", "d", []float32{2, 2}, map[string]any{"s": "new"})
+		case "vdel":
+			wDone <- e.VDelete("i0", "c")
+		case "vmeta":
+			wDone <- e.VSetMetadata("i0", "a", map[string]any{"t": "merged"})
+		case "glink":
+			wDone <- e.VLink("i0", "b", "c", "r", "", 1, nil)
+		default:
+			wDone <- e.VAddBatch("i0", []types.BatchObject{{Id: "e", Vector: []float32{5, 5}}, {Id: "f", Vector: []float32{6, 6}, Metadata: map[string]any{"s": "f"}}})
+		}
+	}()
+	select {
+	case werr := <-wDone:
+		if werr != nil {
+			return fmt.Sprintf("client write %s rejected: %v", c.Op, werr), labels
+		}
+	case <-time.After(c14OrderWait):
+		labels = append(labels, "write blocked by the parked admin operation (cell not exercised)")
+		released.Store(true)
+		adminGo <- struct{}{}
+		<-adminDone
+		<-wDone
+		return "", labels
+	}
+	if c.Op == "vdel" {
+		deadline := time.Now().Add(2 * time.Second)
+		for time.Now().Before(deadline) {
+			if len(e.DB.GetAllRelations("i0::c", "in")) == 0 && len(e.DB.GetAllRelations("i0::c", "out")) == 0 {
+				break
+			}
+			time.Sleep(time.Millisecond)
+		}
+		time.Sleep(2 * time.Millisecond)
+	}
+	if m := advance(c.PW+1, c.PA); m != "" {
+		return m, labels
+	}
+	probe := map[string][]string{"i0": {"a", "b", "c", "d", "e", "f"}}
+	before, err := TakeDump(e, probe)
+	if err != nil {
+		return "live dump: " + err.Error(), labels
+	}
+	// Close while the admin operation is parked
+	closeStarted = true
+	go func() {
+		defer func() {
+			if p := recover(); p != nil {
+				closeDone <- fmt.Errorf("PANIC in Close: %v", p)
+			}
+		}()
+		closeDone <- e.Close()
+	}()
+	var cerr error
+	closeReturned := false
+	select {
+	case cerr = <-closeDone:
+		closeReturned = true
+		labels = append(labels, "Close returned while the admin operation was parked")
+	case <-time.After(c14OrderWait):
+		labels = append(labels, "Close waits for the admin operation")
+	}
+	released.Store(true)
+	adminGo <- struct{}{}
+	var aerr error
+	select {
+	case aerr = <-adminDone:
+	case <-time.After(c14Hang):
+		return fmt.Sprintf("%s did not return within 2 min after the engine was closed under it", c.Admin), labels
+	}
+	if !closeReturned {
+		select {
+		case cerr = <-closeDone:
+		case <-time.After(c14Hang):
+			return fmt.Sprintf("Close did not return within 2 min after %s finished", c.Admin), labels
+		}
+	}
+	SetExtraHook(nil)
+	for _, x := range []error{aerr, cerr} {
+		if x != nil && len(x.Error()) >= 5 && x.Error()[:5] == "PANIC" {
+			return x.Error(), labels
+		}
+	}
+	if aerr != nil {
+		labels = append(labels, "admin operation returned an error")
+	}
+	e2, err := engine.Open(engineOpts(data))
+	if err != nil {
+		return fmt.Sprintf("Open after Close during %s (parked at %s): %v", c.Admin, points[c.PA-1], err), labels
+	}
+	defer e2.Close()
+	after, err := TakeDump(e2, probe)
+	if err != nil {
+		return "dump after Open: " + err.Error(), labels
+	}
+	if d := DiffDumps(before, after); d != "" {
+		return fmt.Sprintf("Close was invoked while %s was parked at %s (it ran on afterwards: %v); the state read before Close differs from the state after Open: %s", c.Admin, points[c.PA-1], aerr, d), labels
+	}
+	return "", labels
+}
+
+func TestVerif_C14_closeduring(t *testing.T) {
+	col := verifkit.New("C14", "closeduring",
+		"ENUMERATION: admin operation (SaveSnapshot, RewriteAOF) advanced phase by phase: a client write (kvset vadd vdel vmeta glink vbatch) is acknowledged at phase PW, Close is invoked at a later-or-equal phase PA while the admin operation is parked there, then the admin operation is released and runs into the closed engine = 252 cells; oracle = nothing panics or hangs, Open succeeds, full API-visible state read before Close equals the state after Open; non-trivial = the client write was acknowledged while the admin operation was parked")
+	defer col.Finish()
+	if rp := verifkit.ReplayPath(); rp != "" {
+		if verifkit.ReplayPart(rp) != "closeduring" {
+			return
+		}
+		var c c14CloseCell
+		if err := verifkit.LoadReplay(rp, &c); err != nil {
+			t.Fatal(err)
+		}
+		col.Case(c, true, "replay")
+		if msg, _ := c14CloseRun(c); msg != "" {
+			col.Fail(c, "%s", msg)
+			t.Fatal(msg)
+		}
+		return
+	}
+	for i, c := range c14CloseAllCells() {
+		if i%verifkit.Shards() != verifkit.Shard() {
+			continue
+		}
+		col.InFlight(c)
+		msg, labels := c14CloseRun(c)
+		col.Landed()
+		nt := true
+		for _, l := range labels {
+			if strings.HasPrefix(l, "write blocked") {
+				nt = false
 			}
 		}
 		col.Case(c, nt, append([]string{c.Admin, c.Op}, labels...)...)
